@@ -29,9 +29,15 @@ func (t *Tracer) Emit(call int, ev string, kv ...interface{}) {
 		e[kv[i].(string)] = kv[i+1]
 	}
 	t.mu.Lock()
-	t.cur = append(t.cur, e)
+	// (a run never needs more than a few hundred events; a run-away loop in
+	// the code under test must not fill the disk: further events are dropped)
+	if len(t.cur) < maxRunEvents {
+		t.cur = append(t.cur, e)
+	}
 	t.mu.Unlock()
 }
+
+const maxRunEvents = 20000
 
 func (t *Tracer) Take() []Ev {
 	t.mu.Lock()
